@@ -180,3 +180,15 @@ mod bench {
         b.iter(|| black_box(&residual).count_bits());
     }
 }
+
+#[cfg(flacenc_verif)]
+#[doc(hidden)]
+pub mod verif_hooks {
+    pub fn utf8like(val: u64) -> Option<Vec<u8>> {
+        super::bitrepr::verif_hooks::utf8like(val)
+    }
+
+    pub fn utf8like_size(val: usize) -> usize {
+        super::bitrepr::verif_hooks::utf8like_size(val)
+    }
+}
